@@ -88,6 +88,18 @@ func SpecReplyTruth(reply interface{}) bool { panic("abstract spec function") }
 // Every native command a value is expanded into is addressed to the entry's key - the key the
 // EXISTS probe, the DEL of "replace" and the PEXPIRE address (with replaceHashTag it differs from
 // the key the parser read from the snapshot).
+//@ func strings.EqualFold(a, b) (r)
+//@   trusted library contract
+//@   ensures spec: r == SpecEqualFold(a, b)
+
+//@ func nativeCommandWithKey
+//@   arith int
+//@   properties C20
+//@   nopanic
+//@   ensures keyed: SpecNativeKeyIndex(cmd) < len(args) ==> len(result) == len(args) && result[SpecNativeKeyIndex(cmd)] == dyn(key)
+//@   ensures rest_unchanged: len(result) == len(args) && forall i int :: 0 <= i && i < len(args) && i != SpecNativeKeyIndex(cmd) ==> result[i] == old(args[i])
+//@   ensures caller_slice_untouched: forall i int :: 0 <= i && i < len(args) ==> args[i] == old(args[i])
+
 //@ func restoreBigRdbEntry$1
 //@   arith int
 //@   properties C20
